@@ -3,8 +3,9 @@
    usage: c28_driver "<plan>"   env: C28_LIB_A, C28_LIB_B
    plan steps (';'-separated):
      S t L f arg   start: thread t calls function f (0/1) of library L (A/B) with int arg
-     W L           wait (<= 5 s) until L's init code has reached its gate (or finished/failed)
-     R L           release L's gate (the init code continues / will not stop there)
+     W L [k]       wait (<= 5 s) until L's init code has reached its gate k (0 = start of the init
+                   code, 1 = after its recursive call; default 0) or has finished/failed
+     R L [k]       release L's gate k (the init code continues / will not stop there)
      J t           join thread t's current call (<= 60 s, else TIMEOUT)
      P ms          pause
    The event log is printed on stdout at the end, one event per line, in real-time order. */
@@ -27,8 +28,10 @@ static pthread_cond_t logc = PTHREAD_COND_INITIALIZER;
 static char *logv[MAXLOG];
 static int logn = 0;
 
-static int released[2] = {0, 0};
-static int at_gate[2] = {0, 0};
+/* two gates per library: gate 2*lib = at the start of the init code, gate 2*lib+1 = after the
+   (optional) recursive call made by the init code, before it finishes */
+static int released[4] = {0, 0, 0, 0};
+static int at_gate[4] = {0, 0, 0, 0};
 static int init_seen[2] = {0, 0};     /* init code entered at least once */
 static int init_over[2] = {0, 0};     /* init code exited (ok or raise) */
 
@@ -49,14 +52,14 @@ void drv_event(const char *s)
     pthread_mutex_unlock(&logm);
 }
 
-void drv_gate(int lib)
+void drv_gate(int gate)
 {
     pthread_mutex_lock(&logm);
-    at_gate[lib] = 1;
+    at_gate[gate] = 1;
     pthread_cond_broadcast(&logc);
-    while (!released[lib])
+    while (!released[gate])
         pthread_cond_wait(&logc, &logm);
-    at_gate[lib] = 0;
+    at_gate[gate] = 0;
     pthread_mutex_unlock(&logm);
 }
 
@@ -161,17 +164,19 @@ int main(int argc, char **argv)
         }
         else if (op == 'W') {
             int lib = (step[2] == 'B');
+            int gate = 2 * lib + (step[3] == ' ' && step[4] == '1');
             double dl = now() + 5.0;
             pthread_mutex_lock(&logm);
-            while (!at_gate[lib] && !init_over[lib]) {
+            while (!at_gate[gate] && !init_over[lib]) {
                 if (timedwait(&logc, &logm, dl) == ETIMEDOUT) break;
             }
             pthread_mutex_unlock(&logm);
         }
         else if (op == 'R') {
             int lib = (step[2] == 'B');
+            int gate = 2 * lib + (step[3] == ' ' && step[4] == '1');
             pthread_mutex_lock(&logm);
-            released[lib] = 1;
+            released[gate] = 1;
             pthread_cond_broadcast(&logc);
             pthread_mutex_unlock(&logm);
         }
@@ -185,7 +190,7 @@ int main(int argc, char **argv)
     }
     /* epilogue: open every gate, every call must terminate */
     pthread_mutex_lock(&logm);
-    released[0] = released[1] = 1;
+    released[0] = released[1] = released[2] = released[3] = 1;
     pthread_cond_broadcast(&logc);
     pthread_mutex_unlock(&logm);
     for (i = 0; i < MAXT; i++)
